@@ -30,7 +30,7 @@ Run(proto, method, v6, mn, mx, q, e) ==
      min_ttl |-> mn, max_ttl |-> mx, delay_ms |-> 20, timeout_ms |-> 300, queries |-> q, e2e |-> e,
      listen_port |-> IF proto = "tcp" /\ method \in {"sack", "prefer_sack"} THEN 443 ELSE 0,
      reverse_dns |-> FALSE, public_ip |-> FALSE, pub_mode |-> "ok", skip_private |-> FALSE, paris |-> FALSE, via |-> "lib", query |-> "",
-     dns |-> [x \in {} |-> ""], http_method |-> "", http_path |-> ""]
+     dns |-> [x \in {} |-> ""], http_method |-> "", http_path |-> "", broken_writer |-> 0, start_delay_us |-> 0]
 
 Protos == { <<"icmp", "", FALSE>>, <<"icmp", "", TRUE>>, <<"udp", "", FALSE>>, <<"udp", "", TRUE>>,
             <<"tcp", "syn", FALSE>>, <<"tcp", "sack", FALSE>>, <<"tcp", "prefer_sack", FALSE>> }
@@ -238,7 +238,32 @@ S01All(u) ==
       HttpScen("health_get", "GET", "/health", "", 200), HttpScen("health_head", "HEAD", "/health", "", 200), HttpScen("health_post", "POST", "/health", "", 405) }
 
 ---------------------------------------------------------------------------
-Cases == CASE Gen = "C15" -> C15All(0)
+(* History: what THIS process served before must not change what a request means. The requests in "before" run first, in the   *)
+(* same process (same caches, same server, same package-level state), over a wire of their own that is not part of the trace.  *)
+\* C19: the same dual-stack name was traced with the OTHER address family a moment ago
+C19Hist(name, w6) ==
+    [C19Scen(<<"udp", "", w6>>, 1, 3, 0, name, "host") EXCEPT !.id = @ \o "/after_other_family", !.label = @ \o "/after_other_family"]
+    @@ [before |-> <<[Run("udp", "", ~w6, 1, 3, 1, 0) EXCEPT !.hostname = name, !.timeout_ms = 120, !.delay_ms = 1]>>]
+\* C20: prefer_sack towards a SACK-capable port, after a closed port of the same host made an earlier SACK attempt impossible
+C20Hist(m) ==
+    [C20Scen(m, "sack_ok", "none", 0) EXCEPT !.id = @ \o "/after_closed_port", !.label = @ \o "/after_closed_port"]
+    @@ [before |-> <<[Run("tcp", "prefer_sack", FALSE, 1, 4, 1, 0) EXCEPT !.port = 444, !.listen_port = 0]>>]
+\* C16: the previous client of the server went away in the middle of its answer; the next answer is still ONE document
+C16Hist(broken) ==
+    [HttpScen("after_broken_client_" \o ToString(broken), "GET", "/traceroute", Q0, 200) EXCEPT !.id = "C16/http/after_broken_client/" \o ToString(broken)]
+    @@ [before |-> <<[Run("udp", "", FALSE, 1, 3, 1, 0) EXCEPT !.via = "http", !.query = Q0, !.timeout_ms = 120, !.broken_writer = broken]>>]
+\* C17: an identical request WITHOUT redaction is being served by the same server while the redacting one arrives
+C17Conc(pr, late) ==
+    LET base == C17Run(pr, "http", TRUE, FALSE, 7, 1)
+        plain == [base.run EXCEPT !.query = "target=" \o T4 \o "&protocol=" \o pr[1] \o "&tcp-method=" \o pr[2] \o "&port=443&max-ttl=8&timeout=300&traceroute-queries=2&e2e-queries=1"
+                                             \o "&skip-private-hops=false&reverse-dns=false", !.skip_private = FALSE] IN
+    [base EXCEPT !.id = @ \o "/concurrent_plain/" \o ToString(late), !.label = @ \o "/concurrent_plain", !.run.start_delay_us = late]
+    @@ [mix |-> <<plain>>]
+HistAll(u) == { C19Hist(n, w) : n \in {"dual46.test", "dual64.test"}, w \in BOOLEAN } \cup { C20Hist(m) : m \in {"prefer_sack", "sack"} }
+              \cup { C16Hist(b) : b \in {1, 40, 300} } \cup { C17Conc(pr, l) : pr \in {<<"icmp", "", FALSE>>, <<"udp", "", FALSE>>}, l \in {0, 30000, 300000} }
+
+---------------------------------------------------------------------------
+Cases == CASE Gen = "Hist" -> HistAll(0) [] Gen = "C15" -> C15All(0)
            [] Gen = "C11" -> C11All(0)
            [] Gen = "C17" -> C17All(0)
            [] Gen = "C19" -> C19All(0)
